@@ -68,19 +68,38 @@ func (cp *FreeList) flushBlock(blk types.Block) (types.Work, error) {
 	return types.Work(types.SizeBytesLen + types.OffBytesLen), nil
 }
 
+// Pending returns the number of blocks waiting in the pool.
+func (cp *FreeList) Pending() int {
+	cp.poolLk.Lock()
+	defer cp.poolLk.Unlock()
+	return len(cp.blockPool)
+}
+
 // Flush writes outstanding work and buffered data to the freelist file.
 func (cp *FreeList) Flush() (types.Work, error) {
+	return cp.FlushN(-1)
+}
+
+// FlushN writes the n oldest blocks of the pool to the freelist file, or all of
+// them if n is negative. A store flush uses it to write only the blocks that
+// were freed before its index flush began.
+func (cp *FreeList) FlushN(n int) (types.Work, error) {
 	cp.flushLock.Lock()
 	defer cp.flushLock.Unlock()
 
 	cp.poolLk.Lock()
-	if len(cp.blockPool) == 0 {
+	if len(cp.blockPool) == 0 || n == 0 {
 		cp.poolLk.Unlock()
 		return 0, nil
 	}
-	blocks := cp.blockPool
-	cp.blockPool = make([]types.Block, 0, blockPoolSize)
-	cp.outstandingWork = 0
+	if n < 0 || n > len(cp.blockPool) {
+		n = len(cp.blockPool)
+	}
+	blocks := cp.blockPool[:n:n]
+	rest := make([]types.Block, len(cp.blockPool)-n, blockPoolSize+len(cp.blockPool)-n)
+	copy(rest, cp.blockPool[n:])
+	cp.blockPool = rest
+	cp.outstandingWork = types.Work(len(rest) * (types.SizeBytesLen + types.OffBytesLen))
 	cp.poolLk.Unlock()
 
 	// The pool lock is released allowing Put to write to nextPool. The
